@@ -674,5 +674,272 @@ var notesLimit = struct{ min, max int }{min: 1, max: 10000}
 			Replace: `	formats := map[string]string{"user": "%s/user/%d", "note": "%s/notes/%d"}
 	url := fmt.Sprintf(formats["user"], ds.baseURL(), id)
 `},
+		{Name: "nodes-ids-presized-string-list-indexed-then-joined", File: "osmapi/node.go",
+			Find: `	"strconv"
+
+	"github.com/paulmach/osm"
+)
+
+// Node returns the latest version of the node from the osm rest api.
+// Delegates to the DefaultDatasource and uses its http.Client to make the request.
+func Node(ctx context.Context, id osm.NodeID, opts ...FeatureOption) (*osm.Node, error) {
+	return DefaultDatasource.Node(ctx, id, opts...)
+}
+
+// Node returns the latest version of the node from the osm rest api.
+func (ds *Datasource) Node(ctx context.Context, id osm.NodeID, opts ...FeatureOption) (*osm.Node, error) {
+	params, err := featureOptions(opts)
+	if err != nil {
+		return nil, err
+	}
+	url := fmt.Sprintf("%s/node/%d?%s", ds.baseURL(), id, params)
+
+	o := &osm.OSM{}
+	if err := ds.getFromAPI(ctx, url, &o); err != nil {
+		return nil, err
+	}
+
+	if l := len(o.Nodes); l != 1 {
+		return nil, fmt.Errorf("wrong number of nodes, expected 1, got %v", l)
+	}
+
+	return o.Nodes[0], nil
+}
+
+// Nodes returns the latest version of the nodes from the osm rest api.
+// Delegates to the DefaultDatasource and uses its http.Client to make the request.
+func Nodes(ctx context.Context, ids []osm.NodeID, opts ...FeatureOption) (osm.Nodes, error) {
+	return DefaultDatasource.Nodes(ctx, ids, opts...)
+}
+
+// Nodes returns the latest version of the nodes from the osm rest api.
+// Will return 404 if any node is missing.
+func (ds *Datasource) Nodes(ctx context.Context, ids []osm.NodeID, opts ...FeatureOption) (osm.Nodes, error) {
+	params, err := featureOptions(opts)
+	if err != nil {
+		return nil, err
+	}
+
+	data := make([]byte, 0, 11*len(ids))
+	for i, id := range ids {
+		if i != 0 {
+			data = append(data, byte(','))
+		}
+		data = strconv.AppendInt(data, int64(id), 10)
+	}
+	url := ds.baseURL() + "/nodes?nodes=" + string(data)
+`,
+			Replace: `	"strconv"
+	"strings"
+
+	"github.com/paulmach/osm"
+)
+
+// Node returns the latest version of the node from the osm rest api.
+// Delegates to the DefaultDatasource and uses its http.Client to make the request.
+func Node(ctx context.Context, id osm.NodeID, opts ...FeatureOption) (*osm.Node, error) {
+	return DefaultDatasource.Node(ctx, id, opts...)
+}
+
+// Node returns the latest version of the node from the osm rest api.
+func (ds *Datasource) Node(ctx context.Context, id osm.NodeID, opts ...FeatureOption) (*osm.Node, error) {
+	params, err := featureOptions(opts)
+	if err != nil {
+		return nil, err
+	}
+	url := fmt.Sprintf("%s/node/%d?%s", ds.baseURL(), id, params)
+
+	o := &osm.OSM{}
+	if err := ds.getFromAPI(ctx, url, &o); err != nil {
+		return nil, err
+	}
+
+	if l := len(o.Nodes); l != 1 {
+		return nil, fmt.Errorf("wrong number of nodes, expected 1, got %v", l)
+	}
+
+	return o.Nodes[0], nil
+}
+
+// Nodes returns the latest version of the nodes from the osm rest api.
+// Delegates to the DefaultDatasource and uses its http.Client to make the request.
+func Nodes(ctx context.Context, ids []osm.NodeID, opts ...FeatureOption) (osm.Nodes, error) {
+	return DefaultDatasource.Nodes(ctx, ids, opts...)
+}
+
+// Nodes returns the latest version of the nodes from the osm rest api.
+// Will return 404 if any node is missing.
+func (ds *Datasource) Nodes(ctx context.Context, ids []osm.NodeID, opts ...FeatureOption) (osm.Nodes, error) {
+	params, err := featureOptions(opts)
+	if err != nil {
+		return nil, err
+	}
+
+	strs := make([]string, len(ids))
+	for i := range ids {
+		strs[i] = strconv.FormatInt(int64(ids[i]), 10)
+	}
+	url := ds.baseURL() + "/nodes?nodes=" + strings.Join(strs, ",")
+`},
+		{Name: "notes-leading-parameter-presized-and-indexed", File: "osmapi/note.go",
+			Find: `	params := make([]string, 0, 1+len(opts))
+	params = append(params, fmt.Sprintf("bbox=%f,%f,%f,%f",
+		bounds.MinLon, bounds.MinLat,
+		bounds.MaxLon, bounds.MaxLat))
+`,
+			Replace: `	params := make([]string, 1, 1+len(opts))
+	params[0] = fmt.Sprintf("bbox=%f,%f,%f,%f",
+		bounds.MinLon, bounds.MinLat,
+		bounds.MaxLon, bounds.MaxLat)
+`},
+		{Name: "notessearch-query-parts-list-ranged-into-builder", File: "osmapi/note.go",
+			Find: `	params = append(params, fmt.Sprintf("q=%s", url.QueryEscape(query)))
+`,
+			Replace: `	parts := []string{"q=", url.QueryEscape(query)}
+	var sb strings.Builder
+	for _, part := range parts {
+		sb.WriteString(part)
+	}
+	params = append(params, sb.String())
+`},
+		{Name: "ways-ids-as-int64-list-variadic-join-named-result-string-accumulation", File: "osmapi/way.go",
+			Find: `	data := make([]byte, 0, 11*len(ids))
+	for i, id := range ids {
+		if i != 0 {
+			data = append(data, byte(','))
+		}
+		data = strconv.AppendInt(data, int64(id), 10)
+	}
+	url := ds.baseURL() + "/ways?ways=" + string(data)
+	if len(params) > 0 {
+		url += "&" + params
+	}
+
+	o := &osm.OSM{}
+	if err := ds.getFromAPI(ctx, url, &o); err != nil {
+		return nil, err
+	}
+
+	return o.Ways, nil
+}
+`,
+			Replace: `	raw := make([]int64, len(ids))
+	for i, id := range ids {
+		raw[i] = int64(id)
+	}
+	url := ds.baseURL() + "/ways?ways=" + joinInts(raw...)
+	if len(params) > 0 {
+		url += "&" + params
+	}
+
+	o := &osm.OSM{}
+	if err := ds.getFromAPI(ctx, url, &o); err != nil {
+		return nil, err
+	}
+
+	return o.Ways, nil
+}
+
+// joinInts formats the numbers in base 10, comma separated.
+func joinInts(nums ...int64) (list string) {
+	for _, n := range nums {
+		if list != "" {
+			list += ","
+		}
+		list += strconv.FormatInt(n, 10)
+	}
+	return
+}
+`},
+		{Name: "notes-url-through-mutable-request-struct-with-methods", File: "osmapi/note.go",
+			Find: `	params := make([]string, 0, 1+len(opts))
+	params = append(params, fmt.Sprintf("bbox=%f,%f,%f,%f",
+		bounds.MinLon, bounds.MinLat,
+		bounds.MaxLon, bounds.MaxLat))
+
+	var err error
+	for _, o := range opts {
+		params, err = o.applyNotes(params)
+		if err != nil {
+			return nil, err
+		}
+	}
+
+	url := fmt.Sprintf("%s/notes?%s", ds.baseURL(), strings.Join(params, "&"))
+
+	o := &osm.OSM{}
+	if err := ds.getFromAPI(ctx, url, &o); err != nil {
+		return nil, err
+	}
+
+	return o.Notes, nil
+}
+`,
+			Replace: `	q := &query{}
+	q.path = ds.baseURL() + "/notes"
+	q.add(fmt.Sprintf("bbox=%f,%f,%f,%f",
+		bounds.MinLon, bounds.MinLat,
+		bounds.MaxLon, bounds.MaxLat))
+
+	for _, o := range opts {
+		var err error
+		if q.parts, err = o.applyNotes(q.parts); err != nil {
+			return nil, err
+		}
+	}
+
+	url := q.String()
+
+	o := &osm.OSM{}
+	if err := ds.getFromAPI(ctx, url, &o); err != nil {
+		return nil, err
+	}
+
+	return o.Notes, nil
+}
+
+// query is a request url under construction.
+type query struct {
+	path  string
+	parts []string
+}
+
+func (q *query) add(p string) { q.parts = append(q.parts, p) }
+
+func (q query) String() (s string) {
+	s = q.path + "?"
+	s += strings.Join(q.parts, "&")
+	return
+}
+`},
+		{Name: "getchangeset-named-results-bare-returns", File: "osmapi/changeset.go",
+			Find: `func (ds *Datasource) getChangeset(ctx context.Context, url string) (*osm.Changeset, error) {
+	css := &osm.OSM{}
+	if err := ds.getFromAPI(ctx, url, &css); err != nil {
+		return nil, err
+	}
+
+	if l := len(css.Changesets); l != 1 {
+		return nil, fmt.Errorf("wrong number of changesets, expected 1, got %v", l)
+	}
+
+	return css.Changesets[0], nil
+}
+`,
+			Replace: `func (ds *Datasource) getChangeset(ctx context.Context, url string) (cs *osm.Changeset, err error) {
+	css := &osm.OSM{}
+	if err = ds.getFromAPI(ctx, url, &css); err != nil {
+		return
+	}
+
+	if l := len(css.Changesets); l != 1 {
+		err = fmt.Errorf("wrong number of changesets, expected 1, got %v", l)
+		return
+	}
+
+	cs = css.Changesets[0]
+	return
+}
+`},
 	}
 }
